@@ -29,6 +29,16 @@ type jitterMon struct {
 	allNs atomic.Int64 // whole process
 	stop  chan struct{}
 	done  chan struct{}
+
+	// every tick since the last reset: when the sleep began and by how much it
+	// overslept (maxBetween: the lateness observed inside a time window)
+	mu      sync.Mutex
+	samples []jitSample
+}
+
+type jitSample struct {
+	from time.Time
+	late time.Duration
 }
 
 const jitterTick = 5 * time.Millisecond
@@ -51,6 +61,9 @@ func startJitter() *jitterMon {
 			if late < 0 {
 				late = 0
 			}
+			j.mu.Lock()
+			j.samples = append(j.samples, jitSample{t0, late})
+			j.mu.Unlock()
 			for {
 				cur := j.maxNs.Load()
 				if int64(late) <= cur || j.maxNs.CompareAndSwap(cur, int64(late)) {
@@ -68,7 +81,30 @@ func startJitter() *jitterMon {
 	return j
 }
 
-func (j *jitterMon) reset()             { j.maxNs.Store(0) }
+func (j *jitterMon) reset() {
+	j.maxNs.Store(0)
+	j.mu.Lock()
+	j.samples = j.samples[:0]
+	j.mu.Unlock()
+}
+
+// maxBetween is the largest timer lateness of a tick that overlaps [from, to]
+// (n: how many ticks did).
+func (j *jitterMon) maxBetween(from, to time.Time) (worst time.Duration, n int) {
+	j.mu.Lock()
+	defer j.mu.Unlock()
+	for _, s := range j.samples {
+		if s.from.After(to) || s.from.Add(jitterTick+s.late).Before(from) {
+			continue
+		}
+		n++
+		if s.late > worst {
+			worst = s.late
+		}
+	}
+	return
+}
+
 func (j *jitterMon) max() time.Duration { return time.Duration(j.maxNs.Load()) }
 func (j *jitterMon) all() time.Duration { return time.Duration(j.allNs.Load()) }
 func (j *jitterMon) close()             { close(j.stop); <-j.done }
@@ -237,8 +273,10 @@ func sdnsGoroutines() int {
 
 var logMu sync.Mutex
 
+func debugOn() bool { return os.Getenv("VERIF_VERBOSE") != "" || os.Getenv("C11_DEBUG") != "" }
+
 func logf(format string, a ...any) {
-	if os.Getenv("VERIF_VERBOSE") == "" && os.Getenv("C11_DEBUG") == "" {
+	if !debugOn() {
 		return
 	}
 	logMu.Lock()
